@@ -1,6 +1,7 @@
 import MindsVerif.Lemmas.SelectSkel
 import MindsVerif.Lemmas.SelectCompose
 import MindsVerif.Lemmas.SetOps
+import MindsVerif.Lemmas.SelectTokens
 import MindsVerif.Props.C03
 import MindsVerif.Model.Lex
 import MindsVerif.Gen.Lex_sqlite
@@ -33,6 +34,9 @@ over 76 node classes; what is proved is layered:
 * **L2 ∘ L3** `C01_partial_compose` (any payload parser / printer pair, payload round trip as hypothesis G2) and
   `C01_partial_select_expr_<d>` (G2 discharged for operator expressions by `C03.roundtrip_<d>`): a whole SELECT
   whose clause payloads are expression token lists round-trips.
+
+* **token level** `C01_partial_tokens` / `C01_partial_tokens_compose`: the printed token sequence (clause keywords,
+  commas, payload tokens) is cut back into the clause list, and composed with L2 ∘ L3.
 
 Glue between the layers that is NOT proved (named here, exercised by the round-trip oracle of
 `tools/props/c01.py` on the real code):
@@ -171,6 +175,28 @@ theorem C01_partial_select_expr (P : OPM.Table) (hP : C03.RoundTrip P) : SelectE
 theorem C01_partial_select_expr_sqlite : SelectExprRT Gen.Prec_sqlite.P := C01_partial_select_expr _ C03.roundtrip_sqlite
 theorem C01_partial_select_expr_mysql : SelectExprRT Gen.Prec_mysql.P := C01_partial_select_expr _ C03.roundtrip_mysql
 theorem C01_partial_select_expr_mindsdb : SelectExprRT Gen.Prec_mindsdb.P := C01_partial_select_expr _ C03.roundtrip_mindsdb
+
+/-! ## token level of the skeleton (the glue G1 made explicit) -/
+
+/-- the token sequence `Select.get_string` emits for a clause list (clause keywords, commas, payload tokens)
+determines the clause list: cutting it at the keywords and commas gives the clauses back — for ALL clause lists
+with non-empty payload token lists -/
+theorem C01_partial_tokens {P : Type} (cs : List (Clause (List P))) (h : cs.all clauseOK = true) :
+    splitTks (printTks cs) = some cs := split_print cs h
+
+/-- **L1/L2 ∘ tokens ∘ L3**: from the printed token sequence of a good record back to the record, given only the
+payload round trip (G2) and that no payload prints to the empty text.  What is left of G1: the LALR parser cuts the
+text where `splitTks` cuts it (no payload token is read as a clause keyword or vice versa). -/
+theorem C01_partial_tokens_compose {P E : Type} (c : Cfg E) (f : List P → Option E) (g : E → List P) (s : Sel E)
+    (hg : Good c s = true) (h : ∀ e ∈ s.payloads, f (g e) = some e) (hne : ∀ e ∈ s.payloads, g e ≠ []) :
+    parseSelTks c f (s.cte.map g) s.distinct (s.targets.map g) (printTks (s.clauses.map (Clause.map g))) = some s :=
+  tokens_roundtrip c f g s hg h hne
+
+/-- non-vacuity: `FROM t WHERE a = 1 GROUP BY a, b LIMIT 2, 3 FOR UPDATE` is cut back into its five clauses -/
+example : splitTks (printTks [Clause.from_ [1], .where_ [2, 3, 4], .groupBy [2] [[5]], .limit2 [6] [7], .forUpdate]) =
+    some [Clause.from_ [1], .where_ [2, 3, 4], .groupBy [2] [[5]], .limit2 [6] [7], .forUpdate] := by decide
+/-- a payload-less clause is not a clause: `WHERE` followed directly by `LIMIT 1` is rejected -/
+example : splitTks ([.kw .where_, .kw .limit, .pay 1] : List (Tk Nat)) = none := by decide
 
 /-! ## L1 atoms repaired in /repo (fa4fc42, 6a738d8): regression obligations on the model of the printers
 (`Lex.parameterToString`, `Lex.variableToString` transcribe the repaired `get_string`s; the former defects —
